@@ -10,7 +10,7 @@ PROPS["C04"] = dict(
          "is left, every Locker of a live provider can TryLock+Unlock again; an attempt started after Shutdown returned never acquires; "
          "Lock/LockWithCtx never fail without cancel/shutdown. A redis unit runs free hand-off chains (2..6 workers x <= 12 rounds on 2..4 Lockers) over the Redis backend on its own "
          "miniredis: every blocking attempt with a live context succeeds, nothing is left behind, all Lockers can acquire again. A real-clock unit (laterenewal) unlocks while a lease renewal is in flight (held before / after the storage applied it), "
-         "optionally re-locks the same Locker at once with its Create in flight while the late renewal completes: the record is gone after Unlock, the re-lock and a later contender acquire, nothing is left at the end; the same unit runs tryfail scenarios (the one Create of a TryLock / LockWithCtx fails with one of six error shapes, request or reply lost: another Locker and then the same Locker can acquire) and an Unlock whose Delete failed followed by a blocking re-lock of the same Locker. A sharedfail unit (free-running, real clock) lets 3-12 goroutines share one or two Locker objects for 20-200 rounds of LockWithCtx / TryLock over a storage that loses every k-th Create (k = 1, 2, 3, 5; k = 1: every attempt fails after it took the local token): no panic, nobody stuck, no record left, and once the storage answers again every Locker can be acquired. non-trivial = an Unlock happened while another Locker object was parked in the "
+         "optionally re-locks the same Locker at once with its Create in flight while the late renewal completes: the record is gone after Unlock, the re-lock and a later contender acquire, nothing is left at the end; the same unit runs tryfail scenarios (the one Create of a TryLock / LockWithCtx fails with one of six error shapes, request or reply lost: another Locker and then the same Locker can acquire) and an Unlock whose Delete failed followed by a blocking re-lock of the same Locker. A sharedfail unit (free-running, real clock) lets 4-16 goroutines share one or two Locker objects for 100-600 rounds of LockWithCtx (0-25% TryLock) over a storage that loses every k-th Create (k = 1, 2, 3, 5; k = 1: every attempt fails after it took the local token): no panic, nobody stuck, no record left, and once the storage answers again every Locker can be acquired. non-trivial = an Unlock happened while another Locker object was parked in the "
          "storage wait, or a cancel hit a parked attempt, or a shutdown hit a provider with parked attempts; distinct = hash of the case; "
          "classes cancel:<position> give the histogram of cancel positions",
     assumptions=["'eventually acquires' is decided as 'acquires before quiescence in drain mode' - exact for this schedule model, says nothing about fairness",
